@@ -29,7 +29,11 @@ fn user_symbols(s: &std::collections::HashMap<String, String>) -> BTreeMap<Strin
 }
 
 pub fn compile_out(text: &str, d: Dialect) -> Result<Out, String> {
-    sut::compile_modern(text, d.sigil(), ModernOpts::cli_default(d.stepping()), "*verif*.clsp", &[])
+    compile_out_in(text, d, &[])
+}
+
+pub fn compile_out_in(text: &str, d: Dialect, search: &[String]) -> Result<Out, String> {
+    sut::compile_modern(text, d.sigil(), ModernOpts::cli_default(d.stepping()), "*verif*.clsp", search)
         .map(|c| Out {
             code_hex: hex(&c.code.ser()),
             symbols: user_symbols(&c.symbols),
@@ -39,10 +43,15 @@ pub fn compile_out(text: &str, d: Dialect) -> Result<Out, String> {
 
 /// compile in a fresh process (fresh hash seeds, counter 0)
 pub fn compile_fresh(text: &str, d: Dialect) -> Result<Out, String> {
+    compile_fresh_in(text, d, &[])
+}
+
+pub fn compile_fresh_in(text: &str, d: Dialect, search: &[String]) -> Result<Out, String> {
     let exe = std::env::current_exe().unwrap();
     let mut child = Command::new(exe)
         .arg("helper-compile-text")
         .arg(d.name())
+        .args(search)
         .stdin(Stdio::piped())
         .stdout(Stdio::piped())
         .stderr(Stdio::null())
@@ -63,12 +72,12 @@ pub fn compile_fresh(text: &str, d: Dialect) -> Result<Out, String> {
     })
 }
 
-pub fn helper_compile_text(dname: &str) -> i32 {
+pub fn helper_compile_text(dname: &str, search: &[String]) -> i32 {
     use std::io::Read;
     let mut text = String::new();
     std::io::stdin().read_to_string(&mut text).ok();
     let d = Dialect::parse(dname).unwrap_or(Dialect::Cl23);
-    let j = match compile_out(&text, d) {
+    let j = match compile_out_in(&text, d, search) {
         Ok(o) => json!({"code_hex": o.code_hex, "symbols": o.symbols}),
         Err(e) => json!({"error": e}),
     };
@@ -188,6 +197,99 @@ pub fn gen_let_functions(c: &mut Choices, d: Dialect) -> String {
     out
 }
 
+/// include files of the same name in different directories, and threads compiling programs of
+/// the other integer-mode group at the same time
+pub fn judge_includes_and_threads(c: &mut Choices, st: &mut Stats) -> Result<bool, Viol> {
+    let d = *c.choose(MODERN);
+    let other_group: Vec<Dialect> = MODERN.iter().copied().filter(|x| x.int_fix() != d.int_fix()).collect();
+    let od = *c.choose(&other_group);
+    let root = tempfile::tempdir().map_err(|e| Viol::new("infra", "tempdir", e.to_string(), json!({})))?;
+    let k0 = c.range(2, 9000);
+    let k1 = k0 + c.range(1, 9000);
+    let mut dirs = vec![];
+    for (i, k) in [k0, k1].iter().enumerate() {
+        let dir = root.path().join(format!("d{i}"));
+        std::fs::create_dir_all(&dir).ok();
+        let body = match c.pick(3) {
+            0 => format!("((defconstant SHK {k}))"),
+            1 => format!("((defun-inline SHF (X) (+ X {k})) (defconstant SHK {k}))"),
+            _ => format!("((defun SHF (X) (* X {k})) (defconstant SHK {k}))"),
+        };
+        std::fs::write(dir.join("shared.clib"), body).ok();
+        dirs.push(dir.to_string_lossy().to_string());
+    }
+    let zero = if c.chance(128) { "(concat 0x00)" } else { "(concat 0x0000 0x00)" };
+    let zb = if d.stepping() >= 23 { format!("(defconst ZB {zero})") } else { format!("(defconstant ZB 0x00)") };
+    let text = format!("(mod (A)\n  (include {})\n  (include shared.clib)\n  {zb}\n  (defun F (X) (let ((Y (+ X SHK))) (c Y ZB)))\n  (c ZB (c SHK (F A)))\n)\n", d.sigil());
+    let ozb = if od.stepping() >= 23 { format!("(defconst ZB {zero})") } else { "(defconstant ZB 0x00)".to_string() };
+    let aggressor = format!("(mod (A)\n  (include {})\n  {ozb}\n  (defun G (X) (let ((Y (* X 3))) (c Y ZB)))\n  (c ZB (G A))\n)\n", od.sigil());
+    let search0 = vec![dirs[0].clone()];
+    let base = match compile_fresh_in(&text, d, &search0) {
+        Ok(o) => o,
+        Err(e) => {
+            st.reject(&format!("[{}] {}", d.name(), e.chars().take(80).collect::<String>()));
+            return Ok(false);
+        }
+    };
+    st.label(&format!("dialect:{}", d.name()));
+    let case = |what: &str, o: &Out| json!({"source": text, "dialect": d.name(), "history": what, "shared_clib": [std::fs::read_to_string(format!("{}/shared.clib", dirs[0])).unwrap_or_default(), std::fs::read_to_string(format!("{}/shared.clib", dirs[1])).unwrap_or_default()],
+        "detail": {"baseline_hex": base.code_hex, "other_hex": o.code_hex, "baseline_symbols": base.symbols, "other_symbols": o.symbols}});
+    // (1) the same source compiled against the *other* directory first, in several orders
+    let n_hist = c.range(1, 3);
+    for _ in 0..n_hist {
+        let order: Vec<String> = match c.pick(3) {
+            0 => vec![dirs[1].clone()],
+            1 => vec![dirs[1].clone(), dirs[0].clone()],
+            _ => vec![dirs[0].clone(), dirs[1].clone()],
+        };
+        let r = compile_out_in(&text, d, &order);
+        // first match in search-path order decides which file is read
+        if order[0] == dirs[0] {
+            if let Ok(o) = &r {
+                if o.code_hex != base.code_hex {
+                    return Err(Viol::new("first-match-in-search-order-not-used", "the code compiled against d0 alone", diff_desc(&base, o), case("search order d0,d1", o)));
+                }
+            }
+        }
+        st.label("history:same-name-include-elsewhere");
+    }
+    let here = compile_out_in(&text, d, &search0).map_err(|e| Viol::new("compile-fails-after-history", "compiles as in a fresh process", e, json!({"source": text})))?;
+    if here.code_hex != base.code_hex {
+        return Err(Viol::new("output-depends-on-earlier-include-of-the-same-name", "identical code", diff_desc(&base, &here), case("after compiling against the other directory", &here)));
+    }
+    // (2) threads: some compile the target, some an aggressor of the other integer-mode group
+    let nt = c.range(2, 6);
+    let rounds = 12;
+    let mut handles = vec![];
+    for t in 0..nt {
+        let (txt, dd, sp) = if t % 2 == 0 { (text.clone(), d, search0.clone()) } else { (aggressor.clone(), od, vec![]) };
+        let is_target = t % 2 == 0;
+        handles.push(std::thread::Builder::new().stack_size(128 << 20).spawn(move || {
+            let mut outs = vec![];
+            for _ in 0..rounds {
+                outs.push(compile_out_in(&txt, dd, &sp));
+            }
+            (is_target, outs)
+        }).unwrap());
+    }
+    for h in handles {
+        if let Ok((is_target, outs)) = h.join() {
+            if !is_target {
+                continue;
+            }
+            for o in outs {
+                match o {
+                    Ok(o) if o.code_hex == base.code_hex => {}
+                    Ok(o) => return Err(Viol::new("concurrent-compile-of-another-dialect-changes-code", "identical code", diff_desc(&base, &o), case("threads compiling a program of the other integer-mode group at the same time", &o))),
+                    Err(e) => return Err(Viol::new("concurrent-compile-fails", "compiles", e, json!({"source": text}))),
+                }
+            }
+        }
+    }
+    st.label("threads:mixed-dialects");
+    Ok(true)
+}
+
 pub fn judge(text: &str, d: Dialect, history: &[Op], st: &mut Stats) -> Result<bool, Viol> {
     let base = match compile_fresh(text, d) {
         Ok(o) => o,
@@ -197,7 +299,23 @@ pub fn judge(text: &str, d: Dialect, history: &[Op], st: &mut Stats) -> Result<b
         }
     };
     let case = |extra: Value| json!({"source": text, "dialect": d.name(), "history": format!("{history:?}"), "detail": extra});
-    let mut held_guards: Vec<chialisp::compiler::clvm::NewStyleIntConversion> = vec![];
+    struct Held(Vec<chialisp::compiler::clvm::NewStyleIntConversion>);
+    impl Drop for Held {
+        fn drop(&mut self) {
+            while let Some(g) = self.0.pop() {
+                drop(g);
+            }
+        }
+    }
+    impl Held {
+        fn push(&mut self, g: chialisp::compiler::clvm::NewStyleIntConversion) {
+            self.0.push(g)
+        }
+        fn pop(&mut self) -> Option<chialisp::compiler::clvm::NewStyleIntConversion> {
+            self.0.pop()
+        }
+    }
+    let mut held_guards = Held(vec![]);
     // (a)/(d): the generated history in this process
     for (i, op) in history.iter().enumerate() {
         let before = sut::ambient_int_mode();
@@ -244,7 +362,10 @@ pub fn judge(text: &str, d: Dialect, history: &[Op], st: &mut Stats) -> Result<b
         }
     }
     let here = compile_out(text, d);
-    drop(held_guards);
+    // innermost first: each guard restores the value it found
+    while let Some(g) = held_guards.pop() {
+        drop(g);
+    }
     match here {
         Err(e) => return Err(Viol::new("compile-fails-after-history", "compiles as in a fresh process", e, case(json!({})))),
         Ok(o) => {
@@ -317,7 +438,7 @@ impl Prop for C05Prop {
         "C05"
     }
     fn rule(&self) -> &'static str {
-        "Target: a C01-generator program (lets, assigns, lambdas, repeated sub-expressions, many helpers, constants) under one sigil. Baseline: its output bytes and all symbol entries compiled in a fresh process at counter 0. Then (a) a generated history in this process -- compiles of other programs in other dialects, compiles that fail in the reader / frontend / codegen / macro run / constant evaluation / inline recursion / assign cycle, jumps of the fresh-name counter to 0, digit-count boundaries, 10^6, near usize::MAX, the ambient integer mode held at either value (as inside another compile), a compile on another thread -- followed by the target; (b) two further fresh processes (fresh hash seeds); (c) 2..8 threads compiling the target concurrently (sharing the counter); (d) after every operation of the history the ambient integer mode equals what it was before. Oracle: every output equals the baseline byte for byte, symbol entries included. Second section: template programs of 2..3 functions, each a chain of 2..3 nested lets (the shape that gives the cl23+ de-inliner competing candidates), under cl23/cl23.1/cl24, compared across 6 fresh processes, an in-process compile and 2..8 threads. Non-trivial: history length >= 2 containing a failing compile, a counter jump or an ambient mode, and the target has compiler-generated names (let/assign/lambda); or a let-functions target. Distinct by hash of source + history."
+        "Target: a C01-generator program (lets, assigns, lambdas, repeated sub-expressions, many helpers, constants) under one sigil. Baseline: its output bytes and all symbol entries compiled in a fresh process at counter 0. Then (a) a generated history in this process -- compiles of other programs in other dialects, compiles that fail in the reader / frontend / codegen / macro run / constant evaluation / inline recursion / assign cycle, jumps of the fresh-name counter to 0, digit-count boundaries, 10^6, near usize::MAX, the ambient integer mode held at either value (as inside another compile), a compile on another thread -- followed by the target; (b) two further fresh processes (fresh hash seeds); (c) 2..8 threads compiling the target concurrently (sharing the counter); (d) after every operation of the history the ambient integer mode equals what it was before. Oracle: every output equals the baseline byte for byte, symbol entries included. Second section: template programs of 2..3 functions, each a chain of 2..3 nested lets (the shape that gives the cl23+ de-inliner competing candidates), under cl23/cl23.1/cl24, compared across 6 fresh processes, an in-process compile and 2..8 threads. Non-trivial: history length >= 2 containing a failing compile, a counter jump or an ambient mode, and the target has compiler-generated names (let/assign/lambda); or a let-functions target. Third section: a target that includes shared.clib, present with different contents in two directories, compiled against one of them after the same source was compiled against the other (alone and in both search orders; the first match must win), compared with a fresh process; then 2..6 threads, half compiling the target and half a program of the other integer-mode group with a zero-byte constant evaluated at compile time, 12 rounds each, every target output equal to the baseline. Distinct by hash of source + history."
     }
     fn sections(&self, tier: Tier) -> Vec<Section> {
         vec![Section {
@@ -328,6 +449,14 @@ impl Prop for C05Prop {
             },
             exhaustive: false,
             what: "generated target x generated in-process history x fresh processes x concurrent threads",
+        }, Section {
+            name: "includes_and_threads",
+            kind: SectionKind::Random {
+                cases: tier.pick(150, 3_000),
+                maxlen: 60,
+            },
+            exhaustive: false,
+            what: "target including shared.clib found in one of two directories holding different files of that name: compiled after the same source was compiled against the other directory / both orders; then 2..6 threads, half compiling the target and half a program of the other integer-mode group, 12 rounds each",
         }, Section {
             name: "let_functions",
             kind: SectionKind::Random {
@@ -342,6 +471,20 @@ impl Prop for C05Prop {
         let Input::Bytes(bytes) = input else {
             return Verdict::Skip("index input not used");
         };
+        if _sec == "includes_and_threads" {
+            let mut c = Choices::new(bytes);
+            st.label("random_case");
+            return match judge_includes_and_threads(&mut c, st) {
+                Err(v) => Verdict::Violation(Box::new(v)),
+                Ok(false) => Verdict::Skip("target rejected by the compiler"),
+                Ok(true) => {
+                    st.label("checked");
+                    st.nontrivial(fnv(bytes));
+                    st.sample(|| json!({"section": "includes_and_threads", "choices": hex(bytes)}));
+                    Verdict::Pass
+                }
+            };
+        }
         if _sec == "let_functions" {
             let mut c = Choices::new(bytes);
             let d = *c.choose(&[Dialect::Cl23, Dialect::Cl231, Dialect::Cl24]);
@@ -393,7 +536,18 @@ impl Prop for C05Prop {
             let _ = &mut prog;
             return self.finish(&t, d, &history, &case.feats, st);
         }
-        let text = render_program(&case.prog, Some(d));
+        let mut text = render_program(&case.prog, Some(d));
+        if c.chance(60) {
+            // a zero-byte constant evaluated at compile time: the value whose spelling follows
+            // the integer-conversion mode
+            st.label("target:zero-byte-constant");
+            let helper = if d.stepping() >= 23 { "(defconst ZB_ (concat 0x00))" } else { "(defconstant ZB_ 0x00)" };
+            let insert_at = text.rfind("\n  ").unwrap_or(text.len());
+            text.insert_str(insert_at, &format!("\n  {helper}"));
+            let main_start = text.rfind("\n  ").unwrap_or(0) + 3;
+            let main_expr = text[main_start..text.len() - 2].to_string();
+            text.replace_range(main_start..text.len() - 2, &format!("(c ZB_ {main_expr})"));
+        }
         self.finish(&text, d, &history, &case.feats, st)
     }
     fn known(&self, v: &Viol) -> Option<&'static str> {
@@ -407,6 +561,22 @@ impl Prop for C05Prop {
             let b = sut::consensus_deserialize(&hex::decode(bh).ok()?).ok()?;
             if normalize_gensyms(&a) == normalize_gensyms(&b) {
                 return Some("evaluator-com-leaks-let-bound-names");
+            }
+            // the entry point converts the compiler's result to bytes in the thread's ambient
+            // integer mode: excused only when the dialect is a legacy-integer one, the history
+            // holds the ambient mode at the legacy value, and the two outputs are equal once
+            // every one-byte zero atom is read as nil
+            fn zero_as_nil(v: &V) -> V {
+                match v {
+                    V::A(b) if b.iter().all(|x| *x == 0) => V::A(vec![]),
+                    V::A(b) => V::A(b.clone()),
+                    V::P(x, y) => V::P(std::rc::Rc::new(zero_as_nil(x)), std::rc::Rc::new(zero_as_nil(y))),
+                }
+            }
+            let legacy = matches!(v.case.get("dialect").and_then(|d| d.as_str()), Some("cl21" | "strict-cl21" | "cl22" | "cl23"));
+            let held_legacy = v.case.get("history").and_then(|h| h.as_str()).map(|h| h.contains("AmbientIntMode(false)")).unwrap_or(false);
+            if legacy && held_legacy && zero_as_nil(&a) == zero_as_nil(&b) {
+                return Some("legacy-dialect-output-is-converted-in-the-ambient-integer-mode");
             }
             return None;
         }
@@ -438,6 +608,11 @@ impl Prop for C05Prop {
         // a replay about hash seeding compares processes only (no counter jumps, whose effect on
         // synthesised symbol names is a separate, listed finding)
         let hist = if case.get("fresh_processes").is_some() { vec![] } else { hist };
+        // a replay about the ambient integer mode holds it at the given value
+        let hist = match case.get("ambient_int_mode").and_then(|b| b.as_bool()) {
+            Some(b) => vec![Op::AmbientIntMode(b)],
+            None => hist,
+        };
         EXTRA_FRESH.store(n, Ordering::Relaxed);
         Some(match judge(src, d, &hist, st) {
             Err(v) => Verdict::Violation(Box::new(v)),
